@@ -33,8 +33,17 @@ def mk_candles(stream, base, a, b, form="candle"):
     from hexital import Candle
 
     out = []
+    aware = None
+    if form.startswith("aware"):
+        # timezone-aware timestamps (fixed offset given in minutes after the colon)
+        from datetime import timezone
+
+        aware = timezone(timedelta(minutes=int(form.split(":")[1])))
+        form = "candle"
     for ts, o, h, l, c, v in stream[a - 1:b]:
         t = base + timedelta(seconds=ts) if ts is not None else None
+        if aware is not None and t is not None:
+            t = t.replace(tzinfo=timezone.utc).astimezone(aware)
         if form == "candle":
             out.append(Candle(open=o, high=h, low=l, close=c, volume=v, timestamp=t))
         elif form == "dict":
@@ -128,7 +137,8 @@ class Session:
 
     def new(self, k):
         sc = self.sc
-        cands = mk_candles(sc["stream"], self.base, 1, k, "candle")
+        form0 = sc.get("form", "candle")
+        cands = mk_candles(sc["stream"], self.base, 1, k, form0 if form0.startswith("aware") else "candle")
         self.cfgs = list(sc["inds"]) + list(sc.get("late", []))
         if sc["obj"] == "mgr":
             from hexital.core.candle_manager import CandleManager
@@ -219,6 +229,11 @@ class Session:
                 self.obj.append(data)
             finally:
                 self.args = (before, flat_args(data, self.base) if not form.startswith("candle") else [])
+        elif op == "poke":
+            # the caller updates the newest candle in place (a forming candle that keeps trading)
+            cs = self.managers()[0][1]
+            cnd = cs[step[1]]
+            cnd.open, cnd.high, cnd.low, cnd.close, cnd.volume = step[2]
         elif op == "collapse" and sc["obj"] == "mgr":
             self.obj.collapse_candles()
         elif op == "collapse":
@@ -233,7 +248,12 @@ class Session:
         elif op == "recalculate":
             self.obj.recalculate(step[1] or None) if hexobj else self.obj.recalculate()
         elif op == "calculate_index":
-            if hexobj and len(step) > 3 and step[3] == "default":
+            if len(step) > 3 and step[3] == "fresh":
+                if hexobj:
+                    self.obj.calculate_index(step[1] or None, step[2])
+                else:
+                    self.obj.calculate_index(step[2])
+            elif hexobj and len(step) > 3 and step[3] == "default":
                 self.obj.calculate_index(step[1] or None)        # Hexital's default index (-1)
             elif hexobj:
                 self.obj.calculate_index(step[1] or None, step[2])
@@ -515,7 +535,10 @@ def record(sc):
             nm = step[1] or ""
         elif step[0] == "add":
             nm = ses.live.get(step[1], "")
-        ev = {"op": step[0],
+        opname = step[0]
+        if step[0] == "calculate_index" and len(step) > 3 and step[3] == "fresh":
+            opname = "calculate_index_fresh"
+        ev = {"op": opname,
               "a": step[1] if step[0] == "append" else 0,
               "b": step[2] if step[0] == "append" else (step[1] if step[0] == "new" else 0),
               "nm": nm,
